@@ -13,7 +13,7 @@ From Coq Require Import String.
 From Coq Require Import List Ascii ZArith Bool.
 From CGV Require Import Base.PyBase Base.PyVal Base.NxGraph Gen.HydroGen Hydro.Hydrogens Hydro.Squash
      Hydro.SquashDefs Hydro.SquashProofs Hydro.SquashTotal Hydro.ShareProofs Hydro.QuotientDefs Hydro.QuotientProofs Hydro.BangBonds Hydro.BangGraph.
-From CGV Require Compose.CutModel Compose.CutSkeleton Compose.GraphAdj Hydro.ShareCut Hydro.ShareCutTotal Hydro.SquashTotalAny Hydro.ShareCutExamples.
+From CGV Require Compose.CutModel Compose.CutSkeleton Compose.GraphAdj Hydro.ShareCut Hydro.ShareCutTotal Hydro.SquashTotalAny Hydro.QuotientAttrs Hydro.ShareCutExamples.
 From CGV Require Hydro.HydroCheck Hydro.SquashCheck.
 From CGV Require Resolve.GraphOps Resolve.CopyProofs Resolve.Bonding.
 Import ListNotations.
@@ -351,6 +351,36 @@ Theorem C10_share_vs_cut_resolver_total : forall C D L aa orig fdC BC fdD BD,
       (forall y x, In y (node_keys g') -> In x (node_keys g') ->
          has_edge g' y x = has_edge gd (ShareCut.pi_cut C D orig y) (ShareCut.pi_cut C D orig x))).
 Proof. exact ShareCutTotal.share_vs_cut_resolver_total. Qed.
+(** the other attributes: for every well-formed graph with list-valued fragid / mapping and numeric hcount, a
+    surviving atom has, under every key besides fragid / mapping / contraction / hcount, the value it had before *)
+Theorem C10_squash_keeps_attrs : forall g g' Fl Ml, wf_graph g -> lists_of g Fl Ml -> hnum_g g -> squash_atoms g = Ok g' ->
+  QuotientAttrs.keeps g' g.
+Proof. exact QuotientAttrs.squash_keeps_attrs. Qed.
+(** so the atoms of the two descriptions are the same atoms: when the two cuts carry the same payload
+    ([same_payload]: what C records for a copy, D records for its original), a surviving atom of the squashed
+    graph and its image in the graph of the molecule's own cut carry that value under every payload key that is
+    not one of the resolver's own, hcount or contraction (element, charge, aromatic, ...) *)
+Theorem C10_share_vs_cut_resolver_atoms : forall C D L aa orig fdC BC fdD BD,
+  CutModel.wf_cut C -> CutModel.templates_ok C fdC -> CutModel.is_base C BC -> CopyProofs.wf_dict fdC ->
+  CutModel.wf_cut D -> CutModel.templates_ok D fdD -> CutModel.is_base D BD ->
+  (aa = true -> forall x, In x (CutModel.flat C) ->
+     (exists e, aget (S "element") (CutModel.payload C x) = Some e) /\
+     exists h, aget (S "hcount") (CutModel.payload C x) = Some (VInt h)) ->
+  (aa = true -> forall x, In x (CutModel.flat D) ->
+     (exists e, aget (S "element") (CutModel.payload D x) = Some e) /\
+     exists h, aget (S "hcount") (CutModel.payload D x) = Some (VInt h)) ->
+  ShareCut.expands C D L orig -> ShareCutTotal.same_payload C D orig ->
+  exists gs fgs gd fgd,
+    (st <- GraphOps.resolve_disconnected (fdmap (bangify L) fdC) BC ;;
+     GraphOps.bonding_step true aa BC (fst st) (snd st)) = Ok (gs, fgs) /\
+    (st <- GraphOps.resolve_disconnected fdD BD ;; GraphOps.bonding_step true aa BD (fst st) (snd st)) = Ok (gd, fgd) /\
+    (hnum_g gs -> forall g', squash_atoms gs = Ok g' ->
+       forall y key v, In y (node_keys g') -> aget key (CutModel.payload C (ShareCut.atom_of C y)) = Some v ->
+         ~ In key CutModel.reserved -> key <> S "hcount" -> key <> S "contraction" ->
+         node_get g' y key = Some v /\ node_get gd (ShareCut.pi_cut C D orig y) key = Some v).
+Proof. exact ShareCutTotal.share_vs_cut_resolver_atoms. Qed.
+Theorem C10_same_payload_example : ShareCutTotal.same_payload ShareCutExamples.exC ShareCutExamples.exD ShareCutExamples.ex_orig.
+Proof. exact ShareCutExamples.ex_same_payload. Qed.
 (** the extra hypotheses hold on the example of C10_share_vs_cut_resolver_nonvacuous, at both levels *)
 Theorem C10_share_vs_cut_resolver_total_hypotheses :
   ShareCutTotal.wf_dictb (CutModel.fragdict_of ShareCutExamples.exC) = true /\
@@ -434,4 +464,7 @@ Print Assumptions C10_share_vs_cut_resolver_nonvacuous.
 Print Assumptions C10_squash_total_resolver_any.
 Print Assumptions C10_share_vs_cut_resolver_total.
 Print Assumptions C10_wf_dict_decidable.
+Print Assumptions C10_squash_keeps_attrs.
+Print Assumptions C10_share_vs_cut_resolver_atoms.
+Print Assumptions C10_same_payload_example.
 Print Assumptions C10_share_vs_cut_resolver_total_hypotheses.
